@@ -214,7 +214,7 @@ def asError {ι : Type} (ops : Ops ι) : PanicVal → Option PanicVal
   | .index => some .index
 
 /-- `xs[i]` on a list of configurations -/
-def index {α : Type} (xs : List α) (i : Nat) : Option α := xs[i]?
+def elemAt {α : Type} (xs : List α) (i : Nat) : Option α := xs[i]?
 
 /-! ### primitives on the world (one per statement shape the generator accepts) -/
 
